@@ -306,7 +306,7 @@ func symConvHook(i *interpreter, utDst, utSrc types.Type, x value) (value, bool)
 					return mkStr(append([]value{}, xv...)), true
 				}
 			}
-			if b, ok := s.Elem().Underlying().(*types.Basic); ok && b.Kind() == types.Rune && containsSym(x) {
+			if b, ok := s.Elem().Underlying().(*types.Basic); ok && b.Kind() == types.Rune && anySym(xv) {
 				// string([]rune) with symbolic runes: concatenation of the
 				// UTF-8 encodings (each forks on its length)
 				if d, ok := utDst.(*types.Basic); ok && d.Kind() == types.String {
@@ -926,4 +926,13 @@ func (x *pathCtx) tableLookup(t []value, idx sym) value {
 		i = j - 1
 	}
 	return x.lower(acc, k)
+}
+
+func anySym(vs []value) bool {
+	for _, v := range vs {
+		if _, ok := v.(sym); ok {
+			return true
+		}
+	}
+	return false
 }
